@@ -486,7 +486,16 @@ class SR:
     __ge__ = _c(lambda a, b: a >= b)
     __eq__ = _c(lambda a, b: a == b)
     __ne__ = _c(lambda a, b: a != b)
-    __hash__ = None
+
+    def __hash__(self):
+        """so that symbolic numbers can live in sets / dict keys: every symbolic value lands in ONE bucket and Python then
+        asks `==`, which forks through the solver -- value-based de-duplication, decided symbolically.  A constant-valued SR
+        hashes like the Python number.  (A container mixing concrete numbers with non-constant symbolic ones is not
+        de-duplicated across the two kinds: that can only add spurious paths, which the replay filters.)"""
+        c = _pyconst(self.z)
+        if c is not None:
+            return hash(int(c)) if c.denominator == 1 else hash(float(c))
+        return 0x5F3759DF
 
     def __bool__(self):
         return Engine.cur.decide(self.z != 0)
